@@ -1,11 +1,12 @@
-import SaModel.Props.C01
+import SaModel.Props.C01Obs
 import SaModel.Props.C11Front
 import SaModel.Build.Wrappers
 /-
 C11 — how a record is presented does not change the arrays.
 
 * `presentation_independent`: the row a push appends depends on the value only through the documented mapping
-  `Spec.interpDT` — which matches record fields by NAME.  Corollary of R2 (`C01.push_interp`).  Any two
+  `Spec.interpDT` — which matches record fields by NAME.  Corollary of R2' for determined states (`C01.push_interp_det`, the
+  hidden-rows refinement of Props/C01Obs.lean: weak state invariant, NO `Safe`).  Any two
   presentations with the same `interpDT` (struct / map / tuple, any field order, extra fields, `Some`/newtype
   layers, integer widths …) leave the builder with the same logical rows.
 * `record_as_map`: a struct presentation and the map presentation with the same keys have the same `interpDT`.
@@ -23,25 +24,30 @@ namespace SaModel.Props.C11
 open SaModel SaModel.Build SaModel.Spec
 
 /-- **Presentation independence.** Two values with the same documented meaning at the builder's field, both
-accepted: the builder ends up with the same logical rows. -/
+accepted: the builder ends up with the same logical rows.  State hypotheses: the WEAK state invariant `WFH`, `NoDictKey`
+(holds of every builder `build_builder` constructs) and `Det` (no row is undetermined) — all three hold of every strictly
+well-formed state (`WFH_of_WFB`, `Det_of_WFB`; so the former hypotheses `WFB b`, `Safe b` imply them) and of the root of
+`to_marrow` after every record, for EVERY schema: no `Safe`. -/
 theorem presentation_independent (ext : Ext) (x y : SVal) (b bx bY : B) (dt : DataType) (n : Bool) (md : Metadata)
-    (hx : noRaw x = true) (hy : noRaw y = true) (hwf : WFB b) (hsafe : Safe b) (hshape : Shape b dt n md)
-    (hsame : interpDT ext dt n md x = interpDT ext dt n md y)
+    (hx : noRaw x = true) (hy : noRaw y = true) (hwf : WFH b) (hnd : NoDictKey b) (hdet : Det b)
+    (hshape : Shape b dt n md) (hsame : interpDT ext dt n md x = interpDT ext dt n md y)
     (h1 : push ext b x = .ok bx) (h2 : push ext b y = .ok bY) : dec bx = dec bY := by
-  obtain ⟨_, _, _, lv1, hd1, hi1⟩ := C01.push_interp ext x b bx dt n md (noRaw_ssa x hx) (Or.inl hx) hwf hsafe hshape h1
-  obtain ⟨_, _, _, lv2, hd2, hi2⟩ := C01.push_interp ext y b bY dt n md (noRaw_ssa y hy) (Or.inl hy) hwf hsafe hshape h2
+  obtain ⟨_, _, _, _, lv1, hd1, hi1⟩ :=
+    C01.push_interp_det ext x b bx dt n md (noRaw_ssa x hx) (Or.inl hx) hwf hnd hdet hshape h1
+  obtain ⟨_, _, _, _, lv2, hd2, hi2⟩ :=
+    C01.push_interp_det ext y b bY dt n md (noRaw_ssa y hy) (Or.inl hy) hwf hnd hdet hshape h2
   rw [hsame, hi2] at hi1
   cases hi1
   rw [hd1, hd2]
 
-/-- the same for whole batches through the front end -/
+/-- the same for whole batches through the front end (no `Safe`) -/
 theorem runRows_presentation_independent (ext : Ext) (fields : List Field) (rows1 rows2 : List SVal) (root0 r1 r2 : B)
-    (hc : fields.all coveredF = true) (h0 : newRoot fields = .ok root0) (hsafe : Safe root0)
+    (hc : fields.all coveredF = true) (h0 : newRoot fields = .ok root0)
     (hraw1 : ∀ x ∈ rows1, noRaw x = true) (hraw2 : ∀ x ∈ rows2, noRaw x = true)
     (hsame : rows1.map (interpRow ext fields) = rows2.map (interpRow ext fields))
     (h1 : runRows ext fields rows1 = .ok r1) (h2 : runRows ext fields rows2 = .ok r2) : dec r1 = dec r2 := by
-  obtain ⟨a1, _, _⟩ := C01.runRows_interp ext fields rows1 root0 r1 hc h0 hsafe (fun x hx => noRaw_ssa x (hraw1 x hx)) (Or.inl hraw1) h1
-  obtain ⟨a2, _, _⟩ := C01.runRows_interp ext fields rows2 root0 r2 hc h0 hsafe (fun x hx => noRaw_ssa x (hraw2 x hx)) (Or.inl hraw2) h2
+  obtain ⟨a1, _, _⟩ := C01.runRows_interp' ext fields rows1 root0 r1 hc h0 (fun x hx => noRaw_ssa x (hraw1 x hx)) (Or.inl hraw1) h1
+  obtain ⟨a2, _, _⟩ := C01.runRows_interp' ext fields rows2 root0 r2 hc h0 (fun x hx => noRaw_ssa x (hraw2 x hx)) (Or.inl hraw2) h2
   exact go _ _ _ _ a1 a2 hsame
 where
   go : ∀ (l1 : List LVal) (rows1 : List SVal) (l2 : List LVal) (rows2 : List SVal),
